@@ -487,3 +487,176 @@ contract("src/gene_info.py:FeatureInfo.__init__",
          gen=lambda rng, n: ({"self": None, "chr_id": rng.choice(["chr1", "chrX"]), "start": rng.randint(1, 50), "end": rng.randint(50, 90),
                               "strand": rng.choice(["+", "-", "+-"]), "type": rng.choice(["X", "TU", "IS"]), "gene_ids": ["g%d" % rng.randint(1, 3)]}
                              for _ in range(n)))
+
+
+# ---- exon / intron tables of whole pipeline runs on generated loci, recounted from the reads (nested genes, several read islands per gene) -------
+def _count_loci(seed):
+    """4 loci 14 kb apart in the gene-free stretch of the bundled reference. Per locus a host gene (random strand, 5-6 exons, isoforms `full`
+    and `skip`) and, in half of the loci, a gene nested in the host's largest intron (2-3 exons, own strand). Read populations (every read
+    consists of WHOLE annotated exons): full-length host reads, host reads of the first two / last two exons only (separate read islands
+    unless full-length reads bridge them), nested-gene reads."""
+    import random
+    rng = random.Random(seed)
+    base = 3041000
+    loci = []
+    for li in range(4):
+        o = base + 14000 * li
+        strand = rng.choice("+-")
+        n = rng.randint(5, 6)
+        pos = o + 500
+        exons = []
+        big = rng.randrange(1, n - 2)
+        for k in range(n):
+            ln = rng.randint(100, 220)
+            exons.append((pos, pos + ln - 1))
+            pos += ln + (rng.randint(3500, 4200) if k == big else rng.randint(300, 700))
+        iso = {"full": list(exons)}
+        sk = rng.choice([i for i in range(1, n - 1)])
+        iso["skip"] = [e for i, e in enumerate(exons) if i != sk]
+        genes = [{"gene": "cntH%d" % li, "strand": strand, "isoforms": iso}]
+        pops = []
+        if rng.random() < .6:
+            pops.append((list(iso[rng.choice(["full", "skip"])]), rng.randint(2, 4)))
+        if rng.random() < .8:
+            pops.append((exons[:2], rng.randint(2, 4)))
+        if rng.random() < .8:
+            pops.append((exons[-2:], rng.randint(2, 4)))
+        if rng.random() < .5:
+            a = exons[big][1] + 600
+            nex = []
+            for k in range(rng.randint(2, 3)):
+                ln = rng.randint(100, 200)
+                nex.append((a, a + ln - 1))
+                a += ln + rng.randint(300, 600)
+            genes.append({"gene": "cntN%d" % li, "strand": rng.choice("+-"), "isoforms": {"full": nex}})
+            pops.append((list(nex), rng.randint(2, 4)))
+        loci.append({"genes": genes, "reads": pops})
+    return loci
+
+
+def _count_loci_prepare(seed):
+    def prepare(d):
+        import gzip, os
+        import pysam
+        seq = "".join(l.strip() for l in gzip.open(os.path.join(d, "chr9.4M.fa.gz"), "rt") if not l.startswith(">")).upper()
+        inp = pysam.AlignmentFile(os.path.join(d, "chr9.4M.ont.sim.polya.bam"))
+        tid = inp.get_tid("chr9")
+        gtf, recs = [], []
+        k = 0
+        for L in _count_loci(seed):
+            for G in L["genes"]:
+                lo = min(e[0] for ex in G["isoforms"].values() for e in ex); hi = max(e[1] for ex in G["isoforms"].values() for e in ex)
+                gtf.append("chr9\tsyn\tgene\t%d\t%d\t.\t%s\t.\tgene_id \"%s\";" % (lo, hi, G["strand"], G["gene"]))
+                for name, ex in sorted(G["isoforms"].items()):
+                    t = "%s.%s" % (G["gene"], name)
+                    gtf.append("chr9\tsyn\ttranscript\t%d\t%d\t.\t%s\t.\tgene_id \"%s\"; transcript_id \"%s\";" % (ex[0][0], ex[-1][1], G["strand"], G["gene"], t))
+                    for a, b in ex:
+                        gtf.append("chr9\tsyn\texon\t%d\t%d\t.\t%s\t.\tgene_id \"%s\"; transcript_id \"%s\";" % (a, b, G["strand"], G["gene"], t))
+            for chain, cnt in L["reads"]:
+                for _ in range(cnt):
+                    a = pysam.AlignedSegment(inp.header)
+                    a.query_name, a.flag, a.reference_id, a.reference_start, a.mapping_quality = "cnt_%d" % k, 0, tid, chain[0][0] - 1, 60
+                    k += 1
+                    cig, s_ = [], ""
+                    for i, (x, y) in enumerate(chain):
+                        if i:
+                            cig.append((3, x - chain[i - 1][1] - 1))
+                        cig.append((0, y - x + 1)); s_ += seq[x - 1:y]
+                    a.cigartuples, a.query_sequence = cig, s_
+                    a.query_qualities = pysam.qualitystring_to_array("I" * len(s_))
+                    a.set_tag("NM", 0)
+                    recs.append(a)
+        with pysam.AlignmentFile(os.path.join(d, "cnt.bam"), "wb", template=inp) as out:
+            for a in sorted(recs, key=lambda x: x.reference_start):
+                out.write(a)
+        pysam.index(os.path.join(d, "cnt.bam"))
+        open(os.path.join(d, "cnt.gtf"), "w").write("\n".join(gtf) + "\n")
+        return "cnt.bam", "cnt.gtf"
+    return prepare
+
+
+def _pipeline_recount_problems(seed):
+    import os, shutil
+    from contracts import c_novel
+    d, p = c_novel._run_pipeline(["--count_exons", "--no_model_construction"], True, _count_loci_prepare(seed))
+    problems, nrows = [], 0
+    try:
+        if p.returncode != 0:
+            return ["isoquant exited %d: %s" % (p.returncode, p.stderr[-300:])], 0
+        got = {}
+        for kind in ("exon", "intron"):
+            for line in open(os.path.join(d, "out", "S", "S.%s_counts.tsv" % kind)):
+                if line.startswith("#"):
+                    continue
+                f = line.rstrip("\n").split("\t")
+                key = (kind, int(f[1]), int(f[2]))
+                if key in got:
+                    problems.append("%s %d-%d has more than one row" % key)
+                got[key] = (int(float(f[-2])), int(float(f[-1])), f[3], set(f[5].split(",")))
+        nrows = len(got)
+        # the recount: reads are lists of whole annotated exons
+        loci = _count_loci(seed)
+        feats = {}
+        for L in loci:
+            for G in L["genes"]:
+                for ex in G["isoforms"].values():
+                    for e in ex:
+                        feats.setdefault(("exon", e[0], e[1]), set()).add(G["gene"])
+                    for i in range(len(ex) - 1):
+                        feats.setdefault(("intron", ex[i][1] + 1, ex[i + 1][0] - 1), set()).add(G["gene"])
+        reads = [chain for L in loci for chain, cnt in L["reads"] for _ in range(cnt)]
+        for key, genes in sorted(feats.items()):
+            kind, a, b = key
+            inc = exc = 0
+            for r in reads:
+                if kind == "exon":
+                    if (a, b) in r:
+                        inc += 1
+                    elif r[0][1] < a and b < r[-1][0]:
+                        exc += 1              # the exon lies between the read's first and last exon and the read does not contain it
+                else:
+                    introns = [(r[i][1] + 1, r[i + 1][0] - 1) for i in range(len(r) - 1)]
+                    if (a, b) in introns:
+                        inc += 1
+                    elif r[0][0] <= b and a <= r[-1][1]:
+                        exc += 1              # the read's span overlaps the intron and the read does not contain it
+            row = got.get(key)
+            if inc == 0 and exc == 0:
+                if row is not None and (row[0] or row[1]):
+                    problems.append("%s %d-%d: reported %d / %d, no read contains or skips it" % (kind, a, b, row[0], row[1]))
+                continue
+            if row is None:
+                problems.append("%s %d-%d: no row, the recount gives include %d / exclude %d" % (kind, a, b, inc, exc))
+            else:
+                if (row[0], row[1]) != (inc, exc):
+                    problems.append("%s %d-%d: reported include %d / exclude %d, the recount gives %d / %d" % (kind, a, b, row[0], row[1], inc, exc))
+                if row[3] != genes:
+                    problems.append("%s %d-%d: gene list %s, the annotation says %s" % (kind, a, b, sorted(row[3]), sorted(genes)))
+        for key in got:
+            if key not in feats:
+                problems.append("%s %d-%d is reported but not annotated" % key)
+    finally:
+        shutil.rmtree(d, ignore_errors=True)
+    return problems, nrows
+
+
+def replay_pipeline_recount(d):
+    p, n = _pipeline_recount_problems(d["inputs"]["seed"])
+    return (not p), "seed %s: %s" % (d["inputs"]["seed"], p[:4] or "%d rows equal the recount" % n)
+
+
+@bounded("C13.pipeline_recount", ["C13"], shards=8, note="pipeline runs with --count_exons on generated loci (host genes with two isoforms, genes nested in a "
+         "host intron, reads of whole annotated exons forming one or several islands per gene): every row of the exon and intron tables "
+         "equals a recount from the reads (contain / skip as the property defines them), one row per feature, gene lists as annotated")
+def c13_pipeline_recount(tier, rng):
+    n = 3 if tier == "quick" else 12
+    base = rng.randrange(10 ** 9)
+    rows = 0
+    for k in range(n):
+        p, nr = _pipeline_recount_problems(base + k)
+        rows += nr
+        if p:
+            return {"cases": k + 1, "bound": "%d pipeline runs" % n, "violations": [{
+                "obligation": "C13.pipeline_recount", "inputs": {"seed": base + k}, "observed": p[:4], "required": "tables equal the recount",
+                "replay_call": "contracts.c_profiles:replay_pipeline_recount"}]}
+    return {"cases": n, "bound": "%d pipeline runs x 4 generated loci (%d table rows recounted)" % (n, rows), "violations": [], "samples": [{"seed": base, "rows": rows}]}
